@@ -142,6 +142,10 @@ func verif_bytesOfStr(s string) verifBytes { panic("verif: spec only") }
 func verif_built[T any](b T) verifBytes { panic("verif: spec only") }
 func verif_bsingle(c byte) verifBytes { panic("verif: spec only") }
 func verif_bempty() verifBytes { panic("verif: spec only") }
+func verif_written[T any](w T) verifBytes { panic("verif: spec only") }
+func verif_utf8rune(s string) rune { panic("verif: spec only") }
+func verif_utf8size(s string) int { panic("verif: spec only") }
+func verif_xxh64(b verifBytes) uint64 { panic("verif: spec only") }
 func verif_bcat(a, b verifBytes) verifBytes { panic("verif: spec only") }
 func verif_bxor(a, b verifBytes) verifBytes { panic("verif: spec only") }
 func verif_btake(a verifBytes, n int) verifBytes { panic("verif: spec only") }
